@@ -187,7 +187,45 @@ def encoder_side(ctx, rnd):
     ctx.sample({'text': meta[len(meta) // 2].decode('latin1')[:60], 'area_len': len(traces[len(meta) // 2]['area']), 'verdict': v[len(meta) // 2][0]})
 
 
+def long_streams(ctx):
+    """well-formed streams from another producer that declare more than 32767 bytes (the header holds a 16-bit length):
+    one literal and maximal copies at offset 1 / a short period; the decoder machine says what they denote, picotool's
+    decoder must agree"""
+    from pico8.game import compress
+    traces = []
+    for n, period in ((40000, 1), (32768, 1), (65535, 3)):
+        seed_txt = b'ab('[:period]
+        text = (seed_txt * (n // period + 1))[:n]
+        table = bytes([10, 32]) + b'0123456789' + b'abcdefghijklmnopqrstuvwxyz' + b'!#%(){}[]<>+=/*:;.,~_'
+        stream = bytearray(table.index(c) + 1 for c in seed_txt)
+        done = period
+        while done < n:
+            ln = min(17, n - done)
+            if ln < 3:
+                stream += bytearray(table.index(c) + 1 for c in text[done:done + ln])
+            else:
+                stream += bytes([60 + period // 16, ((ln - 2) << 4) | (period % 16)])
+            done += ln
+        area = HDR + bytes([(n >> 8) & 255, n & 255]) + b'\x00\x00' + bytes(stream)
+        rec = {'text': list(text), 'area': list(area), 'implDecoded': [-2]}
+        try:
+            _, code, _ = compress.decompress_code(bytearray(area) + bytearray(8))
+            rec['implDecoded'] = list(code)
+        except Exception:
+            pass
+        traces.append(rec)
+    v = ctx.validate('TraceComp', traces, workers=3)
+    for t, vv in zip(traces, v):
+        ctx.evaluations += 1
+        if vv[0] == 'ok':
+            ctx.nontrivial += 1
+        else:
+            ctx.violation('decoder-%s/declared-%s' % (vv[0], 'ge-32768' if len(t['text']) >= 32768 else 'lt-32768'),
+                          'a well-formed stream declaring %d bytes: %s (picotool decoded %d bytes)' % (len(t['text']), vv[0], len(t['implDecoded'])), {'kind': 'long-stream', 'n': len(t['text'])})
+
+
 def run(ctx):
+    long_streams(ctx)
     rnd = random.Random(ctx.seed)
     ctx.rule = ('decoder: well-formed streams generated by Compress.tla (exhaustive item sequences from a 20-byte seed over literal classes and edge-focused (offset, len); random 200-item streams reaching the window edge); '
                 'encoder: every string up to N over a 4-symbol alphabet plus structured texts; non-trivial = stream decoded as dictated / area accepted by the decoder machine')
